@@ -1,6 +1,7 @@
 (* C11 -- property theorems only.  Proofs live in C11/Proofs*.v. *)
 From Coq Require Import NArith List Bool.
-From DV Require Import Base.Outcome Base.Bytes Base.Names Base.PName C11.Gen C11.Model C11.Proofs C11.Proofs2 C11.Proofs3 C11.Frame C11.Proofs4 C11.Proofs5 C11.Proofs6.
+From DV Require Import C02.ProofsName.
+From DV Require Import Base.Outcome Base.Bytes Base.Names Base.PName C11.Gen C11.Model C11.Proofs C11.Proofs2 C11.Proofs3 C11.Proofs4 C11.Proofs5 C11.Proofs6 C11.Proofs7.
 Import ListNotations.
 Local Open Scope N_scope.
 
@@ -51,11 +52,10 @@ Proof. exact server_short_mac_badtrunc. Qed.
 Print Assumptions C11_short_mac_is_badtrunc.
 
 Theorem C11_mac_size_out_of_range_is_formerr : forall mac k w now t sm a,
-  compare_checks_rfc_size = true ->
   from_message w = Ok t -> alg_from_name (mt_algname t) = Some a -> store_get k (mt_owner t) a = true ->
   stripped w t = Ok sm -> within_len_bounds (k_alg k) (len (mt_mac t)) = false ->
-  server_request mac k w now = Err (SE_UNSIGNED + server_code_other).
-Proof. exact server_mac_size_formerr. Qed.
+  server_request mac k w now = Err (SE_UNSIGNED + RC_FORMERR).
+Proof. exact server_mac_size_formerr_now. Qed.
 Print Assumptions C11_mac_size_out_of_range_is_formerr.
 
 Theorem C11_accepted_mac_is_rfc8945 : forall mac,
@@ -120,7 +120,6 @@ Print Assumptions C11_server_sequence_digests_sent_mac.
 
 Theorem C11_digest_injective : forall k pm pm' msg msg' v v',
   len pm < 65536 -> len pm' < 65536 -> wf_vars v -> wf_vars v' ->
-  (v_other v = None <-> v_other v' = None) ->
   digest_full k (apply_signature [] pm) msg v = digest_full k (apply_signature [] pm') msg' v' ->
   pm = pm' /\ msg = msg' /\ v = v'.
 Proof. exact digest_injective. Qed.
@@ -191,10 +190,38 @@ Print Assumptions C11_from_message_no_fuel.
 
 (* building the response to a rejected request: with the plain-FORMERR shape in
    the source (T1) it never panics and carries the RFC's RCODE *)
-Theorem C11_unsigned_error_response_total : forall mac k req now code,
-  formerr_plain_response = true ->
+Theorem C11_unsigned_error_response_total : forall (mac : alg -> bytes -> bytes -> bytes) k req now code,
   server_request mac k req now = Err (SE_UNSIGNED + code) ->
   exists rc, unsigned_error_rcode req code = Ok rc /\
     (code = RC_FORMERR -> rc = RC_FORMERR) /\ (code <> RC_FORMERR -> rc = RC_NOTAUTH).
-Proof. exact unsigned_error_response_total. Qed.
+Proof. exact unsigned_error_response_total_now. Qed.
 Print Assumptions C11_unsigned_error_response_total.
+
+(* The layout premise of the sign/verify theorems holds for every message the
+   builder model of C02 can produce (any pushes, sections, rewinds, limits,
+   targets, compressors), as long as its additional section holds no TSIG yet. *)
+Theorem C11_built_message_laid_out : forall c ops s0 s a ws,
+  C02.Model.init c = Some s0 -> Forall C02.ProofsBuild.wf_op ops ->
+  C02.Model.run_acc c s0 C02.Model.acc0 ops = (s, a, ws) -> C02.ProofsRun.all_alive ws ->
+  Forall (fun b => b < 256) (C02.Model.b_hdr s) ->
+  Forall (fun r => C02.Model.r_type r <> RTYPE_TSIG) (C02.Model.a_ar a) ->
+  MsgAt (C02.Model.msg_of s) (length (C02.Model.a_q a)) (map C02.Model.r_type (C02.Model.a_an a))
+        (map C02.Model.r_type (C02.Model.a_ns a)) (map C02.Model.r_type (C02.Model.a_ar a)).
+Proof. exact built_message_laid_out. Qed.
+Print Assumptions C11_built_message_laid_out.
+
+Theorem C11_sign_verify_request_built : forall mac,
+  (forall a k d, len (mac a k d) = native_len a) ->
+  forall c ops s0 s a ws ks kr t fudge now cx w,
+  C02.Model.init c = Some s0 -> Forall C02.ProofsBuild.wf_op ops ->
+  C02.Model.run_acc c s0 C02.Model.acc0 ops = (s, a, ws) -> C02.ProofsRun.all_alive ws ->
+  Forall (fun b => b < 256) (C02.Model.b_hdr s) ->
+  Forall (fun r => C02.Model.r_type r <> RTYPE_TSIG) (C02.Model.a_ar a) ->
+  same_key ks kr -> k_min kr <= k_sign ks -> within_len_bounds (k_alg ks) (k_sign ks) = true ->
+  name_ok (k_name ks) -> t < T48_LIMIT -> fudge < 65536 ->
+  client_request mac ks (C02.Model.msg_of s) t fudge = Ok (cx, w) ->
+  is_valid_at t fudge now = true ->
+  exists rr, w = set_arcount (C02.Model.msg_of s) (arcount (C02.Model.msg_of s) + 1) ++ rr /\
+    server_request mac kr w now = Ok (SrvOk cx (C02.Model.msg_of s ++ rr)).
+Proof. exact sign_verify_request_built. Qed.
+Print Assumptions C11_sign_verify_request_built.
